@@ -6,12 +6,12 @@ def case_name(path):
     return re.sub(r"[ .\-/]", "_", path)
 
 
-def make_set(rng, nfiles, kinds=None, parallel=True):
+def make_set(rng, nfiles, kinds=None, parallel=True, start=0):
     """returns (files [[path, content]], rules, truth {path: 'ok'|'fail'}, info)"""
     files, rules, truth, info = [], [], {}, {}
     kinds = kinds or ["pass", "pass", "pass", "fail", "fail", "parse", "dies", "nostart"]
     names = ["t/a%02d.slt", "t/b %02d.slt", "t/sub/c-%02d.slt", "t/d.%02d.slt"]
-    for i in range(nfiles):
+    for i in range(start, start + nfiles):
         path = rng.choice(names) % i
         tag = "F%02d" % i
         kind = rng.choice(kinds)
